@@ -59,7 +59,7 @@ def one(spec, jobs, tier):
                 log.flush()
     finally:
         sh(f"git -C /repo worktree remove --force {wt}; rm -rf {wt} {run}/rp")
-        (ROOT / "results" / f"{name}.json").write_text(json.dumps(res, indent=1))
+        (ROOT / os.environ.get("SEED_RESULTS", "results") / f"{name}.json").write_text(json.dumps(res, indent=1))
         log.close()
     return res
 
